@@ -28,6 +28,7 @@ type Cfg struct {
 	XHTML     bool
 	HardWraps bool
 	Align     string // "", "attr", "style": pins the table cell alignment method
+	AttrAll   bool   // an AST transformer gives every node of the tree a data attribute (attributes that cannot be written in Markdown reach every element's attribute rendering)
 	Via       int    // 0 = standard channel; otherwise the index into Channels through which New hands over the options
 	Explicit  bool   // the renderer switches that are off are passed explicitly as renderer.WithOption(name, false)
 }
@@ -58,6 +59,9 @@ func (c Cfg) String() string {
 	}
 	if c.Via != 0 {
 		s += fmt.Sprintf("+via=%d", c.Via)
+	}
+	if c.AttrAll {
+		s += "+attrall"
 	}
 	if c.Explicit {
 		s += "+explicit"
@@ -112,6 +116,8 @@ func ParseCfg(s string) (Cfg, error) {
 			c.Explicit = true
 		case strings.HasPrefix(f, "align="):
 			c.Align = strings.TrimPrefix(f, "align=")
+		case f == "attrall":
+			c.AttrAll = true
 		case strings.HasPrefix(f, "via="):
 			c.Via, _ = strconv.Atoi(strings.TrimPrefix(f, "via="))
 		default:
@@ -371,7 +377,24 @@ func (c Cfg) ParserOptions() []parser.Option {
 	if c.Attr {
 		po = append(po, parser.WithAttribute())
 	}
+	if c.AttrAll {
+		po = append(po, parser.WithASTTransformers(util.Prioritized(attrAll{}, 100000)))
+	}
 	return po
+}
+
+// attrAll is an AST transformer that sets data-n="v" on every node.
+type attrAll struct{}
+
+func (attrAll) Transform(doc *ast.Document, reader text.Reader, pc parser.Context) {
+	_ = ast.Walk(doc, func(n ast.Node, entering bool) (ast.WalkStatus, error) {
+		if entering && n.Kind() != ast.KindDocument {
+			// a data attribute only: an attribute name that a built-in renderer writes itself (class on footnote links,
+			// align on cells) would legitimately come out twice
+			n.SetAttributeString("data-n", []byte("v"))
+		}
+		return ast.WalkContinue, nil
+	})
 }
 
 // RendererOptions returns the renderer options of this configuration.
